@@ -53,7 +53,9 @@ def run_check(pid, tier, root, seed=0, timeout=3600):
              str(seed), '--no-evidence'], cwd=VERIF, capture_output=True,
             text=True, timeout=timeout,
             env=dict(os.environ, DESPER_ROOT=root, PYTHONHASHSEED='0',
-                     PYTHONDONTWRITEBYTECODE='1'))
+                     PYTHONDONTWRITEBYTECODE='1',
+                     VF_REPLAY_DIR=os.path.join(root, 'vf-replays')
+                     if root != REPO else ''))
         out = proc.stdout + proc.stderr
         code = proc.returncode
     except subprocess.TimeoutExpired as ex:
